@@ -404,7 +404,16 @@ def r09_8(prog: Program, rep: Report):
                     return y
 
                 as_text, as_ref = fold(a, True), fold(a, False)
-                if not (T.is_call_to(as_text, "typelib.py.refs.forwardref") and as_text[2][:1] == (child,)) or as_ref != child:
+                # (the statement form decides on the path which of the two cases this is)
+                known = [pol for g, pol in p.guards() if T.is_call_to(g, "builtins.isinstance") and g[2][:1] == (child,) and T.refname(g[2][1]) == "builtins.str"]
+                text_ok = T.is_call_to(as_text, "typelib.py.refs.forwardref") and as_text[2][:1] == (child,)
+                if known and known[-1]:
+                    if not text_ok:
+                        made_ok = False
+                elif known:
+                    if as_ref != child:
+                        made_ok = False
+                elif not text_ok or as_ref != child:
                     made_ok = False
     if n_made:
         rep.check(made_ok, "R09.8", f.qualname, f.loc, "a str member is evaluated through refs.forwardref(member), a ForwardRef member as it is", "what the walk evaluates for a member that is a reference is not `forwardref(member)` for a str and the member itself for a ForwardRef (the two cases are swapped, or the reference is never made): refs.evaluate hands a str back unchanged, so list['Node'] keeps a member that is a str object (TypeError in the dispatch), or a ForwardRef is wrapped in another one", detail="reference-members-made")
@@ -432,9 +441,11 @@ def r09_4(prog: Program, rep: Report):
     t = ("param", f.params[0])
     ref_ok = plain_ok = False
     other = []
-    for p, r in P.returns(P.paths_of(prog, f)):
+    for p, r in P.returns(P.spaths(prog, f)):
         isref = [pol for g, pol in p.guards() if T.is_call_to(g, "builtins.isinstance") and g[2][0] == t]
-        if isref and isref[-1] is True and not any(isref[:-1]):
+        # (a reference path: some class test on the input succeeded -- the test for "is a reference", possibly followed, in a
+        #  helper that dereferences, by the one that tells a string from a ForwardRef)
+        if isref and any(isref) and isref[0] is True:
             if T.is_call_to(r, f.qualname) and r[2] and T.is_call_to(r[2][0], "typelib.py.refs.evaluate"):
                 a = r[2][0][2][0]
                 if a == t or T.contains(a, lambda s: T.is_call_to(s, "typelib.py.refs.forwardref") and s[2][:1] == (t,)):
@@ -450,7 +461,7 @@ def r09_4(prog: Program, rep: Report):
     rep.check(plain_ok, "R09.4", f.qualname, f.loc, "otherwise the result is exactly [*itertypes(t)]", "static_order is not exactly the list of itertypes(t)", detail="plain")
     g = prog.function(f"{MOD}.itertypes")
     ok = False
-    for p in P.paths_of(prog, g):
+    for p in P.spaths(prog, g):
         for e in p.events:
             if e[0] == "yield" and e[1][0] == "elem":
                 c = e[1][1]
